@@ -474,6 +474,44 @@ fn cli_pass(rep: &Report, n: usize, seed: u64) {
     rep.count("CLI programs with print statements", n as u64);
 }
 
+/// Programs with one defect each (C14's mutants): whatever the tool chain does with them, it must either refuse them or
+/// run them without reaching an 'Internal Error' path -- an invalid program that slips through the label checks shows
+/// up here as an emitted line the interpreter cannot run.
+fn defective_programs(rep: &Report, nparents: usize, seed: u64) {
+    par_for(nparents, 1, |i| {
+        let core = i < 4;
+        let mut rng = if core { Rng::new(0xC10D).fork(i as u64) } else { Rng::new(seed).fork(0xC10D_0000 + i as u64) };
+        let ms = crate::c14::sample_mutants(&mut rng);
+        for (k, (class, text)) in ms.iter().enumerate() {
+            // the driver-level classes always, the others sampled
+            let driver = class.starts_with("jump-") || class.starts_with("no-start") || class.starts_with("label-definition") || class.starts_with("call-");
+            if !driver && (k + i) % 6 != 0 {
+                continue;
+            }
+            let out = run_cli(text.as_bytes(), &CliOpts { env: vec![("VERIF_NOMEM", "1")], ..Default::default() });
+            rep.eval(1);
+            rep.count("single-defect programs run through the binary", 1);
+            if out.timed_out || out.flooded {
+                rep.inconclusive("cli watchdog");
+                continue;
+            }
+            let parsed = parse_records(&out.stdout);
+            let plain = String::from_utf8_lossy(&parsed.plain).to_string();
+            rep.distinct_str(&format!("defect|{}|{}", class, parsed.recs.is_empty()));
+            if plain.contains("Internal Error") {
+                let line = plain.lines().find(|l| l.contains("Internal Error")).unwrap_or("").to_string();
+                let stage = if line.contains("print") { "printer" } else if line.contains("data") { "data-loader" } else { "interpreter" };
+                rep.fail(Failure {
+                    sig: format!("cli:internal-error:{}:after-defect:{}", stage, class.split(':').next().unwrap_or("?")),
+                    what: format!("C10 CLI: a program that passed preprocessing and label checking reached the driver's 'Internal Error' path in the {}", stage),
+                    witness: format!("{{\"kind\": \"cli\", \"source\": {}, \"stdin\": \"\", \"defect\": {}, \"stdout_tail\": {}}}", json_str(text), json_str(class), json_str(&plain[plain.len().saturating_sub(300)..])),
+                    core_item: if core { Some(format!("{}|{}", i, class)) } else { None },
+                });
+            }
+        }
+    });
+}
+
 /// print statements at the edges of the 1 MiB space: whatever the assembler lets through, the printer must answer
 fn print_boundaries(rep: &Report) {
     let mb: u64 = 1 << 20;
@@ -561,6 +599,7 @@ pub fn run(rep: &Report) {
     random_programs(rep, if t { 100_000 } else { 3000 }, rep.seed);
     cli_pass(rep, if t { 4000 } else { 150 }, rep.seed);
     print_boundaries(rep);
+    defective_programs(rep, if t { 600 } else { 10 }, rep.seed);
     // terminal coverage
     let terms = grammar_terminals();
     let w = words.lock().unwrap();
@@ -574,4 +613,4 @@ pub fn run(rep: &Report) {
     rep.floor("shapes enumerated", rep.evals(), 10_000);
 }
 
-pub const RULE: &str = "complete enumeration of the source grammar's instruction shapes: every two-operand / one-operand / shift / mov / xchg / push / pop / lea template with a memory operand x all 85 addressing shapes x two displacement+spelling sets; every register pair, immediate radix (decimal, 0x, 0b, negative, OFFSET), data-label form, every jump/loop spelling, single-opcode instruction, string instruction with every prefix spelling, print statement, macro definition/use and data directive kind, in lower and upper case; plus random whole programs. For each accepted program every data line goes to DataParser, every code line to Interpreter::parse in the context built from that program, and programs with print statements through the real binary looking for 'Internal Error'. Keyword terminals scraped from the grammar are cross-checked for coverage. Distinct = shape class.";
+pub const RULE: &str = "complete enumeration of the source grammar's instruction shapes: every two-operand / one-operand / shift / mov / xchg / push / pop / lea template with a memory operand x all 85 addressing shapes x two displacement+spelling sets; every register pair, immediate radix (decimal, 0x, 0b, negative, OFFSET), data-label form, every jump/loop spelling, single-opcode instruction, string instruction with every prefix spelling, print statement, macro definition/use and data directive kind, in lower and upper case; plus random whole programs. For each accepted program every data line goes to DataParser, every code line to Interpreter::parse in the context built from that program, and programs with print statements through the real binary looking for 'Internal Error'. Single-defect programs (C14's mutation classes, driver-level ones always) are run through the binary as well: refused or run, they must never reach an 'Internal Error' path. Keyword terminals scraped from the grammar are cross-checked for coverage. Distinct = shape class.";
